@@ -543,6 +543,7 @@ func runC16(r *Report) {
 		c.r7("R2")
 		c.r2("R2")
 	}
+	atomicWrites(r, "R1", objNamed("peer", "numUnchoking", "amUnchoking", "interested", "unchoked"), 3)
 	// … and the buffer an upload's payload lives in goes back to the pool once
 	bufferOnce(r, "R6")
 	bufferUseAfterGiveBack(r, "R6")
